@@ -187,41 +187,38 @@ def _hermitian(chk):
 def _model_conj(chk):
     pm = chk.pm
     cp = "xeofs.cross.cpcca.CPCCA"
-    inv = pm.own_method(cp, "_inverse_transform_algorithm")
-    f = FuncFacts.of(inv)
-    n = 0
-    for c in f.calls():
-        if is_dot_call(c):
-            for opnd in dot_operands(c):
-                ps = [p for p in f.paths(opnd, spine_only=True) if p.container_key() and p.container_key()[1].startswith("components")]
-                if ps:
-                    n += 1
-                    chk.check(all(conj_parity(p) == 1 for p in ps), "CONJ.model.reconstruct", inv, c,
-                              why="reconstruction must contract scores with the conjugated singular vectors")
-    chk.require(n == 2, "CPCCA._inverse_transform_algorithm: two reconstruction products expected")
-    tr = pm.own_method(cp, "_transform_algorithm")
-    f = FuncFacts.of(tr)
-    n = 0
-    for c in f.calls():
-        if is_dot_call(c):
-            for opnd in dot_operands(c):
-                ps = [p for p in f.paths(opnd, spine_only=True) if p.container_key() and p.container_key()[1].startswith("components")]
-                if ps:
-                    n += 1
-                    chk.check(all(conj_parity(p) == 0 for p in ps), "CONJ.model.project", tr, c,
-                              why="projection must use the singular vectors unconjugated")
-    chk.require(n == 2, "CPCCA._transform_algorithm: two projection products expected")
+    from .common import class_closure, closure_paths
+    cpc = pm.cls(cp)
+
+    def products(mname, parity, rule, why, what):
+        entry = pm.own_method(cp, mname)
+        clo = class_closure(pm, cpc, entry)
+        seen = set()
+        for g in clo:
+            for c in FuncFacts.of(g).calls():
+                if not is_dot_call(c):
+                    continue
+                for opnd in dot_operands(c):
+                    aps = FuncFacts.of(g).paths(opnd, spine_only=True) if g is entry else closure_paths(pm, cpc, entry, g, opnd, True, 0, clo)
+                    ps = [p for p in aps if p.container_key() and p.container_key()[1].startswith("components")]
+                    if ps:
+                        seen |= {p.container_key()[1] for p in ps}
+                        chk.check(all(conj_parity(p) == parity for p in ps), rule, g, c, why=why)
+        chk.require(bool(seen), f"CPCCA.{mname}: no {what} product with the stored singular vectors found (anchor vanished)")
+
+    products("_inverse_transform_algorithm", 1, "CONJ.model.reconstruct", "reconstruction must contract scores with the conjugated singular vectors", "reconstruction")
+    products("_transform_algorithm", 0, "CONJ.model.project", "projection must use the singular vectors unconjugated", "projection")
     fit = pm.own_method(cp, "_fit_algorithm")
-    f = FuncFacts.of(fit)
     n = 0
-    for c in f.calls():
-        if is_dot_call(c):
-            opn = dot_operands(c)
-            if len(opn) == 2 and norm(opn[0]).replace(".conj()", "") == norm(opn[1]).replace(".conj()", ""):
-                par = [("conj" in norm(o)) for o in opn]
-                n += 1
-                chk.check(sum(par) == 1, "CONJ.model.norm", fit, c, why="a squared norm <s, s> needs exactly one conjugated factor")
-    chk.require(n == 2, "CPCCA._fit_algorithm: two score-norm products expected")
+    for g in class_closure(pm, cpc, fit):
+        for c in FuncFacts.of(g).calls():
+            if is_dot_call(c):
+                opn = dot_operands(c)
+                if len(opn) == 2 and norm(opn[0]).replace(".conj()", "") == norm(opn[1]).replace(".conj()", ""):
+                    par = [("conj" in norm(o)) for o in opn]
+                    n += 1
+                    chk.check(sum(par) == 1, "CONJ.model.norm", g, c, why="a squared norm <s, s> needs exactly one conjugated factor")
+    chk.require(n >= 1, "CPCCA._fit_algorithm: score-norm products <s, s> not found (anchor vanished)")
     # metrics reconstruct with conj
     for mname in ("squared_covariance_fraction", "fraction_variance_X_explained_by_X", "fraction_variance_Y_explained_by_Y", "fraction_variance_Y_explained_by_X"):
         fn = pm.own_method(cp, mname)
